@@ -7,10 +7,10 @@ func init() {
 		ID: "C03",
 		Explanation: "Concentrated swaps: decides (a) by direction inference that each of the four next-sqrt-price functions returns a value on the documented side of the exact formula and that CalcAmount0/1Delta use only round-up operations under roundUp and only truncating ones otherwise; " +
 			"(b) per swap step, in all four strategy functions, the amount charged is computed with roundUp=true and converted with DecRoundUp, the amount paid out with roundUp=false and truncated, the fee with round-up multiplication or as the exact remainder, and exact-in/exact-out and zero-for-one/one-for-zero select the matching price function; " +
-			"(c) the estimate entry points run the same compute function with the same arguments on a cache context whose write-back is never called; (d) the progress / overshoot / overcharge guards precede the state updates of the swap loop; (e) totals: amount in is ceiled, amount out truncated.",
+			"(c) the estimate entry points run the same compute function with the same arguments on a cache context whose write-back is never called; (d) the progress / overshoot / overcharge guards precede the state updates of the swap loop; (e) totals: amount in is ceiled, amount out truncated. Round 8: every non-zero rounded-up spread fee is collected from the trader; ApplySwap replaces price, tick and liquidity on every successful path.",
 		NotCovered:  []string{"the bound on the distance from the exact rational curve", "value equality of estimate and execution beyond 'same code, same arguments'", "the round-trip inequality", "18- vs 36-digit regimes"},
 		Assumptions: []string{"operands of the price functions are positive and liquidity − product > 0 (direction inference)", "rounding classes of osmomath as proved by C12"},
-		MinObl:      149,
+		MinObl:      151,
 		Run:         runC03,
 	})
 }
